@@ -201,6 +201,73 @@ theorem unifyAll_bind {x : String} {t : Term} (h : x ∉ t.vars) :
   rw [solve_bind h]
   simp [substE, solve, ofOutcome]
 
+theorem unifyAll_ne_err (eqs : Eqs) (e : Term) : unifyAll eqs ≠ .err e := by
+  unfold unifyAll
+  cases solve eqs [] <;> simp [ofOutcome]
+
+/-! ### arg/3 branch by branch -/
+
+theorem arg3_var_n (y : String) (t x : Term) : arg3 (.var y) t x = .err instErr := rfl
+
+theorem arg3_nonint {n : Term} (h1 : isVar n = false) (h2 : ∀ v, n ≠ .int v) (t x : Term) :
+    arg3 n t x = .err (typeErr "integer" n) := by
+  cases n with
+  | var y => simp [isVar] at h1
+  | int v => exact absurd rfl (h2 v)
+  | _ => rfl
+
+theorem arg3_neg {v : Int} (hv : v < 0) (t x : Term) :
+    arg3 (.int v) t x = .err (domErr "not_less_than_zero" (.int v)) := by
+  simp [arg3, hv]
+
+theorem arg3_var_t {v : Int} (hv : ¬ v < 0) (y : String) (x : Term) :
+    arg3 (.int v) (.var y) x = .err instErr := by
+  simp [arg3, hv]
+
+theorem arg3_noncompound {v : Int} (hv : ¬ v < 0) {t : Term} (h1 : isVar t = false)
+    (h2 : isCompound t = false) (x : Term) :
+    arg3 (.int v) t x = .err (typeErr "compound" t) := by
+  cases t with
+  | var y => simp [isVar] at h1
+  | str f args => simp [isCompound] at h2
+  | _ => simp [arg3, hv]
+
+theorem arg3_str_some {v : Int} (hv : ¬ v < 0) {f : String} {args : List Term} {u : Term}
+    (h : nth1? args v = some u) (x : Term) :
+    arg3 (.int v) (.str f args) x = unifyAll [(x, u)] := by
+  simp [arg3, hv, h]
+
+theorem arg3_str_none {v : Int} (hv : ¬ v < 0) {f : String} {args : List Term}
+    (h : nth1? args v = none) (x : Term) :
+    arg3 (.int v) (.str f args) x = .fail := by
+  simp [arg3, hv, h]
+
+theorem nth1?_eq_some_iff (args : List Term) (v : Int) (u : Term) :
+    nth1? args v = some u ↔ ∃ i : Nat, v = (i : Int) + 1 ∧ ∃ h : i < args.length, args[i] = u := by
+  unfold nth1?
+  constructor
+  · intro h
+    split at h
+    · cases h
+    · rename_i hv
+      obtain ⟨hlt, he⟩ := List.getElem?_eq_some_iff.mp h
+      exact ⟨v.toNat - 1, by omega, hlt, he⟩
+  · rintro ⟨i, rfl, hlt, he⟩
+    have : ¬ ((i : Int) + 1 ≤ 0) := by omega
+    simp only [this, if_false]
+    have : ((i : Int) + 1).toNat - 1 = i := by omega
+    rw [this]
+    exact List.getElem?_eq_some_iff.mpr ⟨hlt, he⟩
+
+theorem nth1?_eq_none_iff (args : List Term) (v : Int) :
+    nth1? args v = none ↔ v ≤ 0 ∨ (args.length : Int) < v := by
+  unfold nth1?
+  split
+  · simp_all
+  · rename_i hv
+    rw [List.getElem?_eq_none_iff]
+    constructor <;> intro h <;> omega
+
 /-! ### renamings -/
 
 theorem lookup_zip_of_mem {x : String} : ∀ {xs ys : List String}, xs.length = ys.length → x ∈ xs →
